@@ -18,8 +18,10 @@ def build(repo, spec_dir, canary=False):
     b.emit('''// ghost bookkeeping of the self-check (C08): which expression a compiled regex was printed from, and what the two checks said about it
 pub uninterp spec fn regex_source(r: Regex) -> Expression<'static>;
 pub uninterp spec fn compiles_to(text: Seq<char>) -> Expression<'static>;
-pub uninterp spec fn selfcheck_ok(e: Expression<'static>, test_cases: Seq<String>) -> bool;          // regex_matches_all_test_cases said yes for the regex of e
-pub uninterp spec fn selfcheck_rot_ok(e: Expression<'static>, test_cases: Seq<String>) -> bool;      // the rotation check left e in an arrangement that passed
+pub uninterp spec fn selfcheck_verdict(r: Regex, test_cases: Seq<String>) -> bool;                  // what regex_matches_all_test_cases answers: a function of the compiled regex and the test cases
+// some regex compiled from e got a positive verdict
+pub open spec fn passed(e: Expression<'static>, test_cases: Seq<String>) -> bool { exists|rg: Regex| regex_source(rg) == e && #[trigger] selfcheck_verdict(rg, test_cases) }
+pub broadcast proof fn lemma_passed(rg: Regex, test_cases: Seq<String>) requires #[trigger] selfcheck_verdict(rg, test_cases) ensures passed(regex_source(rg), test_cases) { }
 pub uninterp spec fn built_by_new_alternation(e: Expression<'static>) -> bool;
 pub uninterp spec fn erase<'a>(e: Expression<'a>) -> Expression<'static>;                          // the same tree without its lifetime (ghost only)
 #[verifier::external_body] pub fn vx_regex_text_without_line_breaks(r: &Regex) -> (s: String) ensures compiles_to(s@) == regex_source(*r) { unimplemented!() }
@@ -46,18 +48,19 @@ impl Regex {
     b.assumed_fn('regexp.rs', 'sort', within=RX, ensures=['final(test_cases)@ == sort_spec(old(test_cases)@)'], why='std sort/dedup/sort_by; comparator verified in unit misc')
     b.assumed_fn('regexp.rs', 'grapheme_clusters', within=RX, ensures=['r@ == clusters_spec(test_cases@, *config)'], why='iterator chains, unicode-segmentation; conversion closures verified in units classify/misc')
     b.assumed_fn('regexp.rs', 'convert_expr_to_regex', within=RX, ensures=['regex_source(r) == erase(*expr)'], why='regex crate; ghost bookkeeping: the regex was printed from this expression')
-    b.assumed_fn('regexp.rs', 'regex_matches_all_test_cases', within=RX, ensures=['r == selfcheck_ok(regex_source(*regex), test_cases@)'], why='regex engine call; ghost bookkeeping: the verdict is a function of the checked expression and the test cases')
-    b.assumed_fn('regexp.rs', 'is_each_test_case_matched_after_rotating_alternations', within=RX, ensures=['lang(*final(expr)) == lang(*old(expr))', 'r ==> selfcheck_rot_ok(erase(*final(expr)), test_cases@)'], why='language clause verified in unit expr against exactly this contract (rotate.lang_preserved); ghost bookkeeping of a positive verdict')
+    b.assumed_fn('regexp.rs', 'regex_matches_all_test_cases', within=RX, ensures=['r == selfcheck_verdict(*regex, test_cases@)'], why='regex engine call; the verdict is a function of its two arguments (the same text as in unit expr)')
+    b.assumed_fn('regexp.rs', 'is_each_test_case_matched_after_rotating_alternations', within=RX, ensures=[c[1] for c in E.ROTATE_CLAUSES], why='verified in unit expr against exactly this contract (rotate.lang_preserved, rotate.positive_verdict_is_for_the_returned_arrangement)')
     W = 'words(clusters_spec(final(test_cases)@, *config))'
     b.verified_fn('regexp.rs', 'from', within=RX, props=['C07'], fname='RegExp::from',
                   clauses=[Clause('pipeline.input_prepared', 'final(test_cases)@ == prepared(old(test_cases)@, *config)', ['C10', 'C04', 'C16']),
                            Clause('pipeline.language', 'lang(r.ast) == %s' % W, ['C01', 'C02', 'C08', 'C16']),
                            Clause('pipeline.config', 'r.config == config', ['C10']),
                            Clause('pipeline.unanchored_result_passed_a_selfcheck_or_is_the_fallback',
-                                  'config.is_end_anchor_disabled ==> selfcheck_rot_ok(erase(r.ast), final(test_cases)@) || selfcheck_ok(erase(r.ast), final(test_cases)@) || built_by_new_alternation(erase(r.ast))', ['C08'])],       # without `$` nothing forces a match to reach the end of the test case: the order of the alternatives must do it, and only the self-check looks at that (with `$` and no `^` the leftmost match of a word of the language starts at 0 and must end at the end)
+                                  'config.is_end_anchor_disabled ==> passed(erase(r.ast), final(test_cases)@) || built_by_new_alternation(erase(r.ast))', ['C08'])],       # without `$` nothing forces a match to reach the end of the test case: the order of the alternatives must do it, and only the self-check looks at that (with `$` and no `^` the leftmost match of a word of the language starts at 0 and must end at the end)
                   loops={1: ['it1.seq() == gc0', '0 <= it1.index@ <= gc0.len()',
                              ('pipeline.fallback_alternation@loop1', ['C01', 'C08', 'C16'], 'alt_lang(exprs@) == words(gc0.take(it1.index@))')]},
-                  blocks=[(1, 'loop_before', '                    let ghost gc0 = grapheme_clusters@; proof { lemma_alt_lang_empty(); lemma_words_empty(); assert(gc0.take(0) =~= Seq::<GraphemeCluster>::empty()); }'),
+                  blocks=[(None, 'fn_start', '        broadcast use lemma_passed;'),
+                          (1, 'loop_before', '                    let ghost gc0 = grapheme_clusters@; proof { lemma_alt_lang_empty(); lemma_words_empty(); assert(gc0.take(0) =~= Seq::<GraphemeCluster>::empty()); }'),
                           (1, 'loop_after', '                    proof { assert(gc0.take(gc0.len() as int) =~= gc0); }', ('pipeline.fallback_alternation@loop1', ['C01', 'C08', 'C16'])),
                           (1, 'loop_start', '                        let ghost old_exprs = exprs@; proof { assert(cluster == gc0[it1.index@]); }'),
                           (1, 'loop_end', '''                        proof {
